@@ -26,6 +26,7 @@ def run(ctx):
              "sits: after THEN, after ELSE, after ':') is consumed on every successful codegen path")
     rule_a(ctx, cr)
     rule_bc(ctx, cr)
+    rule_restore_unconditional(ctx, cr)
     rule_d(ctx, cr)
     rule_e(ctx, cr)
     n = codegen.check_linear(ctx, "C09.f", cr)
@@ -103,6 +104,20 @@ def rule_bc(ctx, cr):
     rd = [x for x in cl.calls_to("mach::program::Program::restore_data")
           if cl.const_of_operand(x.args[1]) == 0]
     ctx.check(bool(rd), "C09.c", "Runtime::clear/rewinds", cl.span, "CLEAR (and so RUN) rewinds to 0")
+
+
+def rule_restore_unconditional(ctx, cr):
+    f = cr.need_fn("mach::link::Link::restore_data")
+    ctx.touch(f)
+    st = [b for b, s_, v in f.field_stores("data_pos") if f.describe_value(v).startswith("arg:")]
+    rets = [b for b in f.reachable() if f.term(b)["k"] == "return"]
+    ok = len(st) == 1 and not (set(rets) & f.reach_set(0, avoid={st[0]})) if st else False
+    ctx.check(ok, "C09.c", "Link::restore_data/unconditional", f.span,
+              "data_pos = addr on every path (an address equal to the data length is legal: "
+              "RESTORE to a line with no DATA at or after it makes the next READ fail)",
+              "restore_data can return without moving the pointer: RESTORE n to a line after the "
+              "last DATA constant is ignored and READ keeps delivering old constants instead of "
+              "OUT OF DATA")
 
 
 def rule_d(ctx, cr):
